@@ -3,6 +3,7 @@ C14 — IRI equivalence is an equivalence relation with the documented insensiti
 Model: `Model/IRI.lean` (tied to iri.go by the `iriEquals` / `irisContains` correspondence ops).
 -/
 import APModel.Model.IRI
+import APModel.Theory.IRIFast
 import Batteries.Data.List.Perm
 
 namespace APModel.IRI
@@ -340,6 +341,71 @@ theorem C14_parseOpt_wf : ParseWF parseOpt := by
 theorem C14_symm_concrete (i w : Str) (cs : Bool) : equals parseOpt i w cs = equals parseOpt w i cs :=
   C14_symm parseOpt C14_parseOpt_wf i w cs
 
+/-! ### the domain on which `IRI.Equals` IS the equivalence: accepted absolute URLs with a lower-case query
+
+`hfast` of `C14_char` is discharged here.  The textual fast path folds letter case over the whole
+string, the parsed comparison does not fold the query: on URLs whose query contains capital letters the
+two disagree (`C14_mixed_case_query_not_transitive` below), which is why the property's domain says
+"query strings in one letter case".  `inDomain` is that domain, decidable: the splitter accepts the
+string as an absolute URL and lowering its query string changes nothing. -/
+
+def inDomain (s : Str) : Bool := (parseOpt s).isSome && (lower (queryStr s) == queryStr s)
+
+/-- the fast path is sound on the domain -/
+theorem C14_fast_sound (i w : Str) (u v : URL) (cs : Bool) (hi : parseOpt i = some u) (hw : parseOpt w = some v)
+    (hqi : lower (queryStr i) = queryStr i) (hqw : lower (queryStr w) = queryStr w)
+    (hf : foldEq (if cs then stripFragment i else stripScheme (stripFragment i))
+                 (if cs then stripFragment w else stripScheme (stripFragment w)) = true) : keyEq cs u v := by
+  have si := parse_shape i u hi
+  have sw := parse_shape w v hw
+  obtain ⟨hs, hh, hp, hq⟩ := fast_components i w u v cs si sw hf
+  rw [hqi, hqw] at hq
+  have hquery : u.query = v.query := by
+    have := si.query
+    rw [hq, sw.query] at this
+    exact (Option.some.inj this).symm
+  refine ⟨fun hc => ?_, ?_, ?_, ?_⟩
+  · rw [si.scheme, sw.scheme, hs hc]
+  · rw [si.host, sw.host]; exact hh
+  · rw [si.path, sw.path]
+    have hnil : pathOf i = [] ↔ pathOf w = [] := by
+      rw [← lower_eq_nil (pathOf i), ← lower_eq_nil (pathOf w), hp]
+    by_cases h1 : pathOf i = []
+    · simp only [h1, hnil.mp h1, if_true]
+    · have h2 : pathOf w ≠ [] := fun e => h1 (hnil.mpr e)
+      simp only [h1, h2, if_false]
+      exact clean_congr_lower _ _ hp
+  · rw [hquery]
+    have hk := C14_parseOpt_wf w v hw
+    exact ⟨rfl, fun k vs hm => ⟨vs, lookup_of_mem hk hm, List.Perm.refl _⟩⟩
+
+/-- **C14 on its domain**: for all accepted absolute URLs with lower-case queries, `IRI.Equals` holds
+exactly when the keys agree — host (with port), cleaned path, query multimap, and the scheme only when
+asked; letter case in scheme, host and path, trailing slash, dot segments, fragment and query order
+are ignored.  No further hypothesis. -/
+theorem C14_char_on (i w : Str) (cs : Bool) (hi : inDomain i = true) (hw : inDomain w = true) :
+    ∃ u v, parseOpt i = some u ∧ parseOpt w = some v ∧ (equals parseOpt i w cs = true ↔ keyEq cs u v) := by
+  simp only [inDomain, Bool.and_eq_true, beq_iff_eq] at hi hw
+  obtain ⟨u, hu⟩ := Option.isSome_iff_exists.mp hi.1
+  obtain ⟨v, hv⟩ := Option.isSome_iff_exists.mp hw.1
+  exact ⟨u, v, hu, hv, C14_char parseOpt i w cs u v hu hv (C14_fast_sound i w u v cs hu hv hi.2 hw.2)⟩
+
+/-- … and therefore an equivalence relation there: reflexive, symmetric, transitive -/
+theorem C14_equiv_on (cs : Bool) :
+    (∀ a, equals parseOpt a a cs = true) ∧
+    (∀ a b, equals parseOpt a b cs = true → equals parseOpt b a cs = true) ∧
+    (∀ a b c, inDomain a = true → inDomain b = true → inDomain c = true →
+      equals parseOpt a b cs = true → equals parseOpt b c cs = true → equals parseOpt a c cs = true) := by
+  refine ⟨fun a => C14_refl parseOpt a cs, fun a b h => by rw [C14_symm_concrete]; exact h, ?_⟩
+  intro a b c ha hb hc h1 h2
+  obtain ⟨ua, ub, hua, hub, e1⟩ := C14_char_on a b cs ha hb
+  obtain ⟨ub', uc, hub', huc, e2⟩ := C14_char_on b c cs hb hc
+  obtain ⟨ua', uc', hua', huc', e3⟩ := C14_char_on a c cs ha hc
+  rw [hub] at hub'; cases hub'
+  rw [hua] at hua'; cases hua'
+  rw [huc] at huc'; cases huc'
+  exact e3.mpr (C14_keyEq_trans cs _ _ _ (e1.mp h1) (e2.mp h2))
+
 /-! ### the two defects of the pinned tree that were repaired (witnesses on the model) -/
 
 private def s (x : String) : Str := x.toUTF8.toList
@@ -357,7 +423,19 @@ theorem C14_pinned_not_transitive :
     equalsPinned parseOpt (s "http://e.com") (s "http://e.com/a/..") true = false := by
   decide +kernel
 
+/-- outside the domain (a capital letter in a query) equality is NOT transitive on the current tree: the
+fast path folds the query's case, the parsed comparison does not.  This is why the domain excludes it. -/
+theorem C14_mixed_case_query_not_transitive :
+    equals parseOpt (s "http://e.com/?X=1") (s "http://e.com/?x=1") false = true ∧
+    equals parseOpt (s "http://e.com/?x=1") (s "http://e.com/./?x=1") false = true ∧
+    equals parseOpt (s "http://e.com/?X=1") (s "http://e.com/./?x=1") false = false ∧
+    inDomain (s "http://e.com/?X=1") = false := by
+  decide +kernel
+
 /-! non-vacuity -/
+example : inDomain (s "https://Example.com/a/./b/../c/?y=2&x=1#Frag") = true ∧
+    inDomain (s "http://example.COM:8080/a/c?x=1&y=2") = true ∧ inDomain (s "http://e.com") = true := by
+  decide +kernel
 example : equals parseOpt (s "https://Example.com/a/./b/../c/?y=2&x=1#frag") (s "http://example.COM/a/c?x=1&y=2") false = true := by
   decide +kernel
 example : equals parseOpt (s "https://example.com/a") (s "http://example.com/a") true = false := by decide +kernel
